@@ -5,7 +5,10 @@
 (*                                                                                          *)
 (* Events (field `ev`):                                                                     *)
 (*  windows  automatic windows read from the results of fit_peaks(windows=scalar), in      *)
-(*           integer units                                                                 *)
+(*           integer units; (hardening round) with the assessment of every result (the      *)
+(*           scripted fit has `k` parameters), the variant of the configuration (element    *)
+(*           types, memory layout), whether the arguments were left as they were and        *)
+(*           whether a second identical call agreed                                         *)
 (*  loop     one scripted behaviour of the model-selection loop (TLC-enumerated case        *)
 (*           replayed with scripted Model subclasses)                                      *)
 (*  call     one call of fit_peaks: result count, order, isolation                         *)
@@ -14,6 +17,8 @@
 (*  select   a call with several models against the single-model calls on the same window  *)
 (*  rmexact  remove_peaks on integer data with integer-valued peaks (exact)                *)
 (*  remove   remove_peaks on a fitted synthetic spectrum (pointwise flags)                 *)
+(*  replay   (hardening round) a case run a second time at the end, in another order:        *)
+(*           `second` is judged like any event and must equal the first observation          *)
 EXTENDS FitPeaksDefs, TLC, Json, IOUtils
 
 Tr == ndJsonDeserialize(IOEnv.TRACE_FILE)
@@ -26,13 +31,25 @@ SeqToSet(s) == {s[i] : i \in 1..Len(s)}
 JudgeWindows(e) ==
     LET c == e.cfg IN
     IF e.out = "raised" THEN "raised_exception"
+    ELSE IF e.out = "nonfinite" THEN "window_edge_is_not_finite"
     ELSE IF Len(e.wins) # NEst(c) THEN "window_count"
     ELSE IF ~WindowsInsideRangeOf(c, e.wins) THEN "window_outside_data_range"
     ELSE IF ~WindowContainsEstimateOf(c, e.wins) THEN "window_does_not_contain_estimate"
     ELSE IF ~NeighbourDistanceOf(c, e.wins) THEN "window_too_close_to_neighbour"
-    ELSE IF ~ExactCfg(c) THEN "ok"             \* construction not representable in integers
-    ELSE IF ~e.ongrid \/ e.wins # WindowsOf(c) THEN "window_differs_from_documented_construction"
-    ELSE "ok"
+    ELSE IF ExactCfg(c) /\ (~e.ongrid \/ e.wins # WindowsOf(c)) THEN "window_differs_from_documented_construction"
+    ELSE IF e.variant \notin WindowVariants THEN "unknown_variant"
+    ELSE IF ~e.args_same THEN "arguments_modified"
+    ELSE IF ~e.again_same THEN "second_identical_call_differs"
+    ELSE IF \E i \in 1..Len(e.assess_full) : e.assess_full[i] = "success" /\ ~AllRequirements(e.succ_req[i])
+         THEN (LET i0 == CHOOSE i \in 1..Len(e.assess_full) : e.assess_full[i] = "success" /\ ~AllRequirements(e.succ_req[i])
+               IN "success_violates_" \o FailureNames[FirstFailing(e.succ_req[i0])])
+    ELSE IF \E i \in 1..Len(e.assess_full) : e.assess_full[i] \notin Assessments THEN "unknown_assessment"
+    ELSE IF ~e.ongrid \/ Len(e.assess) # NEst(c) THEN "ok"
+    ELSE LET bad == {i \in 1..NEst(c) :
+                       NarrowVerdict(NPointsMin(c, e.wins[i]), NPointsMax(c, e.wins[i]), e.k, e.assess[i]) # "ok"}
+         IN IF bad = {} THEN "ok"
+            ELSE LET i0 == CHOOSE i \in bad : \A j \in bad : i <= j
+                 IN NarrowVerdict(NPointsMin(c, e.wins[i0]), NPointsMax(c, e.wins[i0]), e.k, e.assess[i0])
 
 JudgeLoop(e) ==
     LET nb == Len(e.bk)
@@ -60,11 +77,15 @@ JudgeCall(e) ==
     ELSE IF e.nres # e.nest THEN "result_count"
     ELSE IF ~e.order_ok THEN "result_order"
     ELSE IF \E i \in 1..Len(e.iso) : ~e.iso[i] THEN "isolation"
+    ELSE IF ~e.args_same THEN "arguments_modified"
+    ELSE IF ~e.again_same THEN "second_identical_call_differs"
     ELSE "ok"
 
 (* req[k] = requirement k recomputed by the harness; see FitPeaksDefs part 3                *)
 JudgeFit(e) ==
-    IF e.assess \notin Assessments THEN "unknown_assessment"
+    IF e.malformed THEN "result_is_malformed"
+    ELSE IF e.assess \notin Assessments THEN "unknown_assessment"
+    ELSE IF ~e.success_flag_ok THEN "success_property_contradicts_assessment"
     ELSE IF ~e.models_ok THEN "result_models_are_not_the_specified_ones"
     ELSE IF ~e.keys_ok THEN "popt_keys_are_not_the_model_parameters"
     ELSE IF e.nmax < e.k /\ e.assess # "window_too_narrow"
@@ -93,11 +114,15 @@ JudgeSelect(e) ==
 
 JudgeRmExact(e) ==
     IF e.out = "raised" THEN "raised_exception"
+    ELSE IF e.out # "ok" THEN "result_is_not_finite_or_not_an_integer"
     ELSE IF e.inp_after # e.inp \/ ~e.input_same THEN "input_modified"
     ELSE IF Len(e.res_out) # Len(e.inp) THEN "output_length"
     ELSE IF \E x \in 1..Len(e.inp) : Covering(e.res, x) = {} /\ e.res_out[x] # e.inp[x]
          THEN "point_outside_successful_windows_changed"
     ELSE IF e.res_out # RemoveOf(e.inp, e.res) THEN "not_the_fitted_peak_subtracted"
+    ELSE IF ~e.special_same THEN "special_value_outside_successful_windows_changed"
+    ELSE IF ~e.results_same THEN "fit_results_modified"
+    ELSE IF ~e.again_same THEN "second_identical_call_differs"
     ELSE "ok"
 
 JudgeRemove(e) ==
@@ -108,9 +133,11 @@ JudgeRemove(e) ==
          THEN "point_outside_successful_windows_changed"
     ELSE IF \E x \in 1..Len(e.cover) : ~RemovePointOk(e.cover[x], e.same[x], e.subok[x])
          THEN "not_the_fitted_peak_subtracted"
+    ELSE IF ~e.results_same THEN "fit_results_modified"
+    ELSE IF ~e.again_same THEN "second_identical_call_differs"
     ELSE "ok"
 
-Judge(e) == CASE e.ev = "windows" -> JudgeWindows(e)
+Judge1(e) == CASE e.ev = "windows" -> JudgeWindows(e)
               [] e.ev = "loop" -> JudgeLoop(e)
               [] e.ev = "call" -> JudgeCall(e)
               [] e.ev = "fit" -> JudgeFit(e)
@@ -118,6 +145,13 @@ Judge(e) == CASE e.ev = "windows" -> JudgeWindows(e)
               [] e.ev = "rmexact" -> JudgeRmExact(e)
               [] e.ev = "remove" -> JudgeRemove(e)
               [] OTHER -> "unknown_event"
+
+Judge(e) == IF e.ev = "replay"
+            THEN (LET v == Judge1(e.second) IN
+                  IF v # "ok" THEN v
+                  ELSE IF ~e.same THEN "replayed_case_differs_from_its_first_evaluation"
+                  ELSE "ok")
+            ELSE Judge1(e)
 
 TInit == ln = 1 /\ nbad = 0
 TNext == /\ ln <= Len(Tr)
